@@ -169,6 +169,8 @@ def _wrap(draw, fd, e, rsp, mode, exp_type, el_ok):
         if (direct and e.name in ZERO_SCALE_OK and
                 not _has_rejection(fd) and draw(st.integers(0, 7)) == 0):
             s = 0.0
+        if mode == 'functional' and s < 0 and zoo.is_linear_tree(fd):
+            s = -s      # see the catalogue entry 'ZeroFunctional*neg'
         return {'t': 'argscale', 'f': fd, 's': s}
     if rule == 'argscale_el':
         v = zoo.vec(draw(zoo.vecs(n, positive=True)), n)
